@@ -328,6 +328,14 @@ if LossFunction is not None:
 if CyLossFunction is not None:
     GET_STATE_DISPATCH_FUNCTIONS.append((CyLossFunction, loss_get_state))
 
+# Some allowed losses (CyHalfMultinomialLoss) do not inherit from the loss base
+# classes: dispatch them to loss_get_state as well, otherwise they end up in an
+# ObjectNode, which does not trust them by default.
+_loss_bases = tuple(c for c in (LossFunction, CyLossFunction) if c is not None)
+for _loss in sorted(ALLOWED_LOSSES, key=lambda c: c.__name__):
+    if not issubclass(_loss, _loss_bases):
+        GET_STATE_DISPATCH_FUNCTIONS.append((_loss, loss_get_state))
+
 for type_ in UNSUPPORTED_TYPES:
     GET_STATE_DISPATCH_FUNCTIONS.append((type_, unsupported_get_state))
 
